@@ -93,3 +93,16 @@ Definition seq_layers : list string :=
   ["affine"; "backup"; "clamp"; "constant"; "covariant_cast"; "dereference"; "hilbert"; "identity"; "linear"; "morton"; "nearest_neighbour"; "shuffle"; "strided"].
 Theorem read_order_is_write_order : forallb reads_match_writes seq_layers = true.
 Proof. vm_compute. reflexivity. Qed.
+
+(* the field itself: dump = header, backend, footer; the stream constructor reads header, backend, footer *)
+Theorem field_order : lookup "field" io_write_seq = ["H"; "B:m_backend"; "F"] /\ lookup "field" io_read_seq = ["H"; "B:m_backend"; "F"].
+Proof. split; reflexivity. Qed.
+Definition field_item_bytes (b : list Z) (it : string) : list Z :=
+  if String.eqb it "H" then hdr TAG_FIELD else if String.eqb it "F" then ftr TAG_FIELD else b.
+Definition field_write_seq : list string := lookup "field" io_write_seq.
+Theorem dump_order_is_the_source s f bs : dump s f = Some bs ->
+  exists b, dump_layers (fst s) (snd s) (f_cfgs f) (f_prim f) = Some b /\ bs = flat_map (field_item_bytes b) field_write_seq.
+Proof.
+  unfold dump. destruct (dump_layers (fst s) (snd s) (f_cfgs f) (f_prim f)) as [b|]; [|discriminate].
+  intros E. injection E as <-. exists b. split; [reflexivity|]. cbn. rewrite ?app_nil_r, <- ?app_assoc. reflexivity.
+Qed.
